@@ -8,3 +8,11 @@ import SpoxModel.Props.C01
 #print axioms C01.later_nodes_irrelevant
 #print axioms C01.creation_order_irrelevant
 #print axioms C01.written_differently_same_values
+#print axioms C01.denote_congr_needed
+#print axioms C01.unused_inputs_irrelevant
+#print axioms C01.drop_unused_inputs_sound
+#print axioms C01.generated_entry_options_exercised
+#print axioms C01.usedArgs_caller_order
+#print axioms C01.dropUnused_idempotent
+#print axioms C01.read_inputs_must_be_listed
+#print axioms C01.usedArgs_least
